@@ -112,11 +112,11 @@ Proof.
 Qed.
 
 Lemma shut_ctxs_off (P : ctxst -> Prop) l : (forall c, P c -> P (cset_closed c)) -> (forall c, P c -> P (cset_fini (cset_unlink (cset_closed c)))) ->
-  forall cs a, shut_ctxs l = (cs, a) -> Forall P l -> Forall P cs.
+  forall cs a, shut_ctxs true l = (cs, a) -> Forall P l -> Forall P cs.
 Proof.
   intros H1 H2. induction l as [|c r IH]; intros cs a H F; simpl in H.
   - injection H as <- <-; auto.
-  - destruct (shut_ctxs r) as [r' l'] eqn:E. inversion F; subst.
+  - destruct (shut_ctxs true r) as [r' l'] eqn:E. inversion F; subst.
     destruct (c_onlist c); [destruct (c_ref c =? 0)|]; injection H as <- <-; constructor; eauto.
 Qed.
 
@@ -268,7 +268,8 @@ Definition ep_ok (e : epst) : Prop :=
   (e_pub e = true -> e_onlist e = false -> e_stopped e = true) /\
   (e_stopped e = true -> e_busy e = 0) /\ (e_busy e = 0 -> e_pend e = []).
 Definition ctx_ok (c : ctxst) : Prop :=
-  (c_onlist c = false -> c_freed c = true) /\ (c_freed c = true -> c_pend c = []) /\ (c_pub c = false -> c_pend c = []).
+  (c_onlist c = false -> c_freed c = true) /\ (c_freed c = true -> c_pend c = []) /\ (c_pub c = false -> c_pend c = []) /\
+  (c_freed c = true -> c_onlist c = false).
 Definition pipe_ok (p : pipest) : Prop := p_inmap p = true -> p_onlist p = true.
 Definition ret_ok (s : st) (r : uop * N * nat) : Prop :=
   match r with
@@ -568,7 +569,7 @@ Proof.
   destruct (Hret eq_refl) as [H1 _]. destruct (H1 eq_refl) as (Hs & Hc & (_ & Hg)).
   destruct (Hk2 Hs) as (_ & Heo & _).
   split.
-  - intros c x E. pose proof (Forall_nth _ _ _ _ FC E) as (C1 & C2 & C3).
+  - intros c x E. pose proof (Forall_nth _ _ _ _ FC E) as (C1 & C2 & C3 & _).
     pose proof (Forall_nth _ _ _ _ Hg E) as Hp. simpl in Hp.
     destruct (c_pub x) eqn:Epub; [|auto]. apply C2, C1; auto.
   - intros e x E Hp. pose proof (Forall_nth _ _ _ _ FE E) as (_ & _ & E3 & E4 & E5).
@@ -588,7 +589,7 @@ Proof.
   rewrite Forall_forall in Hret. specialize (Hret _ Hin). simpl in Hret.
   destruct (Hret eq_refl) as [_ H2]. destruct (H2 eq_refl) as (Hc & (_ & Hn) & Hf). simpl in Hf.
   split; [auto|split].
-  - intros c x E. pose proof (Forall_nth _ _ _ _ FC E) as (C1 & C2 & _).
+  - intros c x E. pose proof (Forall_nth _ _ _ _ FC E) as (C1 & C2 & _ & _).
     pose proof (Forall_nth _ _ _ _ Hn E) as Ho. simpl in Ho. auto.
   - intros Hs e x E Hp. destruct (Hk2 Hs) as (_ & Heo & _).
     pose proof (Forall_nth _ _ _ _ FE E) as (_ & _ & E3 & E4 & E5).
@@ -636,4 +637,40 @@ Proof.
   apply all_fixed_eq in E; subst. intros ph la fi ls s Hr. split; intros Hin.
   - eapply close_completes_pending_shut; eauto.
   - eapply close_completes_pending_destroy; eauto.
+Qed.
+
+(* ================================================================ contexts *)
+(* sock_shutdown marks EVERY context closed and destroys the idle ones; a busy one (referenced by a call of
+   another thread between its nni_ctx_find and nni_ctx_rele) is destroyed by its last release, because
+   c_closed is set.  In every reachable state a context is destroyed (c_freed) iff it has left s_ctxs, a
+   destroyed context has nothing pending, and ctx_fini only ever runs on a context that is still on the
+   list (shut_ctxs, ACtxRele): so every context is finalized at most once; by the time the destroying
+   close returns every context has been finalized: exactly once. *)
+Theorem contexts_destroyed ph la fi ls s :
+  run fixes_all (init ph la fi) ls = Some s ->
+  (forall c x, nth_error (ctxs s) c = Some x -> (c_freed x = true <-> c_onlist x = false) /\ (c_freed x = true -> c_pend x = [])) /\
+  (In (USockClose, C_OK, R_DESTROY) (rets s) ->
+     forall c x, nth_error (ctxs s) c = Some x -> c_freed x = true /\ c_inmap x = false \/ c_freed x = true).
+Proof.
+  intros Hr. pose proof (SInv_run _ _ _ (SInv_init ph la fi) Hr) as Hi.
+  pose proof Hi as (_ & _ & Hret & _ & _ & (_ & FC) & _).
+  split.
+  - intros c x E. pose proof (Forall_nth _ _ _ _ FC E) as (C1 & C2 & _ & C4). repeat split; auto.
+  - intros Hin c x E. rewrite Forall_forall in Hret. specialize (Hret _ Hin). simpl in Hret.
+    destruct (Hret eq_refl) as [_ H2]. destruct (H2 eq_refl) as (_ & (_ & Hn) & _).
+    pose proof (Forall_nth _ _ _ _ FC E) as (C1 & _). pose proof (Forall_nth _ _ _ _ Hn E) as Ho. simpl in Ho.
+    right. auto.
+Qed.
+
+Definition ContextsDestroyed (fx : fixes) : Prop :=
+  forall ph la fi ls s, run fx (init ph la fi) ls = Some s ->
+    (forall c x, nth_error (ctxs s) c = Some x -> (c_freed x = true <-> c_onlist x = false) /\ (c_freed x = true -> c_pend x = [])) /\
+    (In (USockClose, C_OK, R_DESTROY) (rets s) -> forall c x, nth_error (ctxs s) c = Some x -> c_freed x = true).
+
+Theorem contexts_sel fx : if all_fixed fx then ContextsDestroyed fx else pinned_defect fx.
+Proof.
+  destruct (all_fixed fx) eqn:E; [|apply pinned_defect_holds; auto].
+  apply all_fixed_eq in E; subst. intros ph la fi ls s Hr.
+  destruct (contexts_destroyed _ _ _ _ _ Hr) as [A B]. split; auto.
+  intros Hin c x Ex. destruct (B Hin c x Ex) as [[H _]|H]; auto.
 Qed.
